@@ -21,6 +21,8 @@
      | not E | neg E | pos E | and E E | or E E
      | eq|ne|lt|le|gt|ge E E | add|sub|mul|div|mod E E
      | like E E | nlike E E | isnull E | notnull E | btw E E E | nbtw E E E | in<k> E E×k | nin<k> E E×k
+     | case<k> (E E)×k (else E | noelse)            searched CASE: k pairs condition, result
+     | casex<k> E (E E)×k (else E | noelse)         simple CASE: operand, k pairs value, result
 
   answer := OUT (" ; " OUT)*     one per statement
   OUT    := "Rset:" ROWS      no ORDER BY: rows in canonical (sorted) order
@@ -65,6 +67,8 @@ def toP : Expr → PExpr
   | .isNull neg e => .bin (if neg then .isnot else .is) (toP e) .null
   | .between neg e lo hi => .between neg (toP e) (toP lo) (toP hi)
   | .inList neg e xs => .inList neg (toP e) (toPList xs)
+  | .caseWhen _ => .null      -- not in the parser model: `reparse` leaves expressions with CASE alone
+  | .caseOf _ _ => .null
 def toPList : List Expr → List PExpr
   | [] => []
   | e :: es => toP e :: toPList es
@@ -112,8 +116,22 @@ def fromPList : List PExpr → Option (List Expr)
     | _, _ => none
 end
 
+mutual
+def hasCase : Expr → Bool
+  | .caseWhen _ | .caseOf _ _ => true
+  | .not e | .neg e | .pos e | .isNull _ e => hasCase e
+  | .and a b | .or a b | .cmp _ a b | .arith _ a b | .like _ a b => hasCase a || hasCase b
+  | .between _ a b c => hasCase a || hasCase b || hasCase c
+  | .inList _ a xs => hasCase a || hasCaseList xs
+  | _ => false
+def hasCaseList : List Expr → Bool
+  | [] => false
+  | e :: es => hasCase e || hasCaseList es
+end
+
 /-- the tree the parser with table `T` builds from the minimal text of `e` (`e` itself if that fails) -/
 def reparse (T : Parser.Table) (e : Expr) : Expr :=
+  if hasCase e then e else
   match Parser.parseExpr T (Parser.body Parser.docTable (toP e)) with
   | some p => (fromP p).getD e
   | none => e
@@ -217,10 +235,22 @@ def pExpr : Nat → P Expr
     | "nbtw" => (pExpr fuel ws).bind fun (a, r) => (pExpr fuel r).bind fun (b, r) =>
         (pExpr fuel r).map fun (c, r) => (.between true a b c, r)
     | _ =>
+      match numAfter "casex" w, numAfter "case" w with
+      | some k, _ => (pExpr fuel ws).bind fun (x, r) => (pExprs fuel (2 * k) r).bind fun (ps, r) =>
+          (pElse fuel r).map fun (e, r) => (.caseOf x (ps ++ [e]), r)
+      | none, some k => (pExprs fuel (2 * k) ws).bind fun (ps, r) =>
+          (pElse fuel r).map fun (e, r) => (.caseWhen (ps ++ [e]), r)
+      | none, none =>
       match numAfter "nin" w, numAfter "in" w with
       | some k, _ => (pExpr fuel ws).bind fun (a, r) => (pExprs fuel k r).map fun (xs, r) => (.inList true a xs, r)
       | none, some k => (pExpr fuel ws).bind fun (a, r) => (pExprs fuel k r).map fun (xs, r) => (.inList false a xs, r)
       | none, none => none
+
+def pElse : Nat → P Expr
+  | 0, _ => none
+  | _, "noelse" :: ws => some (.lit .null, ws)
+  | fuel + 1, "else" :: ws => pExpr fuel ws
+  | _, _ => none
 
 def pExprs : Nat → Nat → P (List Expr)
   | 0, _, _ => none
